@@ -19,10 +19,14 @@ RULE = ("programs: (a) the modelled statement language, grammar directed, classe
         "first .<cpu>, no .<cpu>, CPU switch, .bss / byte-order switch after data, forward references, conditionals on "
         "names defined later / earlier / never, .repeat, nested .include, .list); (b) base programs of every CPU of the "
         "statement corpus with define/macro/if/repeat/equ features; (c) two-pass programs (gen_prog.gen_twopass) with "
-        "forward references of small and large value.  Each program x in-process configurations {-, -l, not -q, "
+        "forward references of small and large value; (d) literal-byte programs: every byte value that is legal inside a "
+        "string / character constant (0x01..0xff without newline, closing quote, backslash) in .db/.ascii/.asciiz/.dw/"
+        "instruction operands/.define and .macro bodies/macro arguments/equ, raw bytes in comments, tab separators, CRLF.  "
+        "Each program x in-process configurations {-, -l, not -q, "
         "-dump_symbols, -dump_macros, all, dirty context 00/ff/a5, prior unrelated assembly, repeated} x 2 heap fill "
         "bytes; a subset x process-level option matrix {8 output types} x {-l, -q, -dump_symbols, -dump_macros, all} x "
-        "output names; non-trivial = at least 4 statements; distinct = distinct source text")
+        "output names; naken_util sessions (writes and asm blocks at the same / overlapping origins, then a block whose "
+        "encoding holds 0x00 bytes, 10 CPUs) against a fresh process; non-trivial = at least 4 statements; distinct = distinct source text")
 MODELLED = ("AsmContext::AsmContext(), AsmContext::init(), the pass switch and tail of main() (naken_asm.cpp), the "
             "statement loop for labels, .<cpu>, .big_endian/.little_endian, .bss/.code, .org, .db, .dw, .dc32, .resb, "
             ".define, .list, .ifdef/.ifndef/.else, .repeat (copy loop), .include (static depth, write_list_file), the "
